@@ -413,6 +413,9 @@ func (g *GoFakeS3) deleteBucket(bucket string, w http.ResponseWriter, r *http.Re
 			if err := f.ForceDeleteBucket(bucket); err != nil {
 				return err
 			}
+			// the bucket is gone: a further DeleteBucket would answer NoSuchBucket
+			w.WriteHeader(http.StatusNoContent)
+			return nil
 		}
 	}
 
